@@ -509,6 +509,16 @@ func (e *simEnv) judge(res drive.Result, tag string) (flow *refmatch.Flow, js []
 					ok = true
 					if !v.Serial {
 						e.checkArrival(tag, t, h.RTT, jj, p, pollTol, detail)
+					} else if first := e.justified(js, f, t, a, h.IsDest); first == jj && jj.out.TTL == t && !jj.d.At.Before(p.SentAt) && (sentAt[t+1] == nil || !jj.d.ReadAt.After(sentAt[t+1].SentAt)) {
+						// serial engine: from the send of probe t until it reads a reply it polls without a gap, and nothing is
+						// read between the end of that wait and the next send. A reply for t that arrived after t's send and
+						// was read BEFORE probe t+1 went out is therefore the reply that ended the wait for t, and was read
+						// within one poll interval of its arrival. (Replies read in later windows - copies, or replies whose
+						// window was ended early by another reply - are not judged.)
+						e.c.Count("arrival_checked", 1)
+						if late := jj.d.ReadAt.Sub(jj.d.At); late > pollTol {
+							e.c.Violate("C05", "late-read/"+v.Name, fmt.Sprintf("%s: hop %d RTT %.3f ms, but the accepted reply (frame #%d) arrived %.3f ms after its probe, inside the probe's own window, and was only read %.3f ms later (tolerance one poll interval %.0f ms)", tag, t, h.RTT, jj.d.Frame.ID, msOf(jj.d.At.Sub(p.SentAt)), msOf(late), msOf(pollTol)), detail())
+						}
 					}
 				}
 				best = want
